@@ -2,6 +2,7 @@ package main
 
 import (
 	"go/token"
+	"strings"
 
 	"golang.org/x/tools/go/ssa"
 )
@@ -132,9 +133,56 @@ func runSetupAfterCommit(c *Ctx) {
 					})
 				}
 			})
-			c.Check("C07.R6", in, "presence/join set up after the commit is re-validated against a racing unsubscribe", recheck,
+			// the finding is identified by the subscribe entry point it belongs to, not by the helper or
+			// closure the code currently sits in
+			c.CheckAt("C07.R6", subscribeEntryOf(w, f)+": presence/join set up after the commit is re-validated against a racing unsubscribe", w.InstrPos(in), recheck,
 				"the subscription is already visible in Client.channels: an unsubscribe from another goroutine tears it down at once (remove presence, publish leave) and this setup lands afterwards — a presence entry without a subscription and a leave ahead of its join ("+calleeName(ci.Common())+")")
 		})
 	}
 	c.Anchor("C07.R6", "presence/join setup calls placed after a subscription commit", n >= 1)
+}
+
+// subscribeEntryOf: the nearest subscribe entry point (frozen list, read from the code) from which f is
+// entered lexically or through static calls.
+func subscribeEntryOf(w *World, f *ssa.Function) string {
+	entries := map[string]bool{
+		"(*Client).handleSubscribe": true, "(*Client).Subscribe": true, "(*Client).connectCmd": true,
+		"(*Client).handleMapTransitionToLive": true, "(*Client).handleSharedPollSubscribe": true,
+	}
+	type item struct {
+		f *ssa.Function
+		d int
+	}
+	seen := map[*ssa.Function]bool{f: true}
+	queue := []item{{f, 0}}
+	for len(queue) > 0 {
+		it := queue[0]
+		queue = queue[1:]
+		name := shortFuncName(it.f)
+		if it.f.Signature.Recv() != nil {
+			name = "(*" + typeShort(it.f.Signature.Recv().Type()) + ")." + it.f.Name()
+		}
+		if entries[name] {
+			return name
+		}
+		if it.d >= 5 {
+			continue
+		}
+		var next []*ssa.Function
+		if p := it.f.Parent(); p != nil {
+			next = append(next, p)
+		}
+		for _, site := range w.Callers(it.f) {
+			if p := site.Parent(); p != nil && !strings.HasSuffix(w.Pos(p.Pos()), "_test.go") {
+				next = append(next, p)
+			}
+		}
+		for _, n := range next {
+			if !seen[n] {
+				seen[n] = true
+				queue = append(queue, item{n, it.d + 1})
+			}
+		}
+	}
+	return FuncName(f)
 }
